@@ -50,6 +50,11 @@ var mutationDocs = univ.Js(
 	`{"a":[{"k":"b"},{"k":"a"},{"k":"c"}],"b":[{"k":2},{"k":"x"},{"k":1}]}`, `[1]`, `[2,1]`, `{"a":[true,false,null],"b":[1.5,-1,0]}`,
 	// already in order (an "is it sorted already?" shortcut returns the caller's list itself)
 	`[1,2,3]`, `{"a":[{"k":1,"t":3},{"k":2,"t":2},{"k":3,"t":1}],"b":["a","b","c"]}`, `[{"k":1,"t":2},{"k":2,"t":1}]`,
+	// a list whose ONLY element is a list (a flatten with "nothing to concatenate" may hand back the inner list itself),
+	// nulls that are not trailing (a "drop the nulls in place" shortcut shifts the rest)
+	`[[3,1,2]]`, `{"a":[[{"k":2,"t":0},{"k":1,"t":1}]],"b":[[3,1,2]]}`, `[[{"k":1},{"k":2}]]`, `{"a":[[3,null,1]],"b":[null,[2,1]]}`, `[1,null,2,3]`, `{"a":[{"k":1},null,{"k":2},{"k":3}],"b":[null,"b","a"]}`,
+	// lists of exactly one element (a "nothing to rearrange" shortcut returns the caller's list to a function that fills it)
+	`{"a":[{"k":1,"t":"x","a":[2]}],"b":["b"]}`, `[{"k":9}]`,
 	`[1,null,2]`, `{"a":[null,1,null,2],"b":[null]}`, `{"a":{},"b":{"k":1,"j":2}}`, `{"a":{"k":0},"b":{}}`, `{"a":[9,8,7,6,5,4,3,2,1,0,"x"],"b":[0,1,2,3,4,5,6,7,8,9,10,11]}`,
 )
 
